@@ -1,6 +1,5 @@
 """C06: the C++ and the Python parser accept the same programs and build the same rules."""
 import json
-import re
 
 from lv import core, noise, parsers, syntaxgen
 
@@ -59,6 +58,15 @@ def _pipe_operator(tree):
     return bool(found)
 
 
+def _null_call(tree):
+    """{"call": null} somewhere: what the C++ parser emits for `v[]`."""
+    if isinstance(tree, dict):
+        return any((k == 'call' and v is None) or _null_call(v) for k, v in tree.items())
+    if isinstance(tree, list):
+        return any(_null_call(v) for v in tree)
+    return False
+
+
 def verdict(text):
     """-> (failures [(bucket, detail)], info)"""
     res = parsers.parse_both(text)
@@ -85,6 +93,8 @@ def verdict(text):
         bucket = 'cpp_accepts_py_%s:%s' % (ps, pp)
         if _pipe_operator(cp):
             bucket += ':pipe_operator'
+        if _null_call(cp):
+            bucket += ':null_call'
         fails.append((bucket, 'C++ parser accepts, Python parser: %s (%s)\ntext:\n%s' % (
             ps, pp, text)))
     return fails, info
@@ -185,13 +195,10 @@ def check_case(case):
     return fails
 
 
-_TOK = re.compile(r'''\s+|"""(?:.|\n)*?"""|"[^"\n]*"|'(?:\\.|[^'\\])*'|`[^`]*`|'''
-                  r'''[A-Za-z_@][A-Za-z_0-9]*|\d+(?:\.\d+)?|/\*(?:.|\n)*?\*/|#[^\n]*|'''
-                  r''':-|:=|==|<=|>=|!=|->|=>|\+\+|&&|\|\||\.\.|.''', re.S)
-
-
 def minimise(case, bucket):
-    """statement-level, then token-level delta debugging on the text."""
+    """Statement-level delta debugging only: dropping whole statements keeps the text
+    inside the property's domain (a grammar program, its layout variant, or one of them
+    with a single corrupted token); deleting arbitrary tokens would not."""
     parsers.setup()
 
     def fails_with(text):
@@ -199,10 +206,5 @@ def minimise(case, bucket):
     pieces = list(case.get('pieces') or [case['text']])
     if len(pieces) > 1:
         pieces = core.ddmin(pieces, lambda sub: fails_with(''.join(sub)), max_tests=60)
-    toks = _TOK.findall(''.join(pieces))
-    if 1 < len(toks) <= 400:
-        toks = core.ddmin(toks, lambda sub: fails_with(''.join(sub)), max_tests=250)
-    text = ''.join(toks)
-    if not fails_with(text):
-        text = ''.join(pieces)
-    return {'kind': case.get('kind'), 'corruption': case.get('corruption'), 'pieces': [text]}
+    return {'kind': case.get('kind'), 'corruption': case.get('corruption'),
+            'pieces': pieces}
